@@ -77,6 +77,12 @@ def _match(p, n, b: Dict[str, ast.AST]) -> bool:
         nk = {k.arg: k.value for k in n.keywords if k.arg is not None}
         for k in p.keywords:
             if k.arg is None:
+                # `**$X` binds the target's `**` argument
+                stars = [t.value for t in n.keywords if t.arg is None]
+                if _mv(k.value) == "_":
+                    continue
+                if len(stars) != 1 or not _match(k.value, stars[0], b):
+                    return False
                 continue
             if k.arg not in nk:
                 return False
